@@ -113,6 +113,19 @@ def random_run(rng, rid, nh=None, ncalls=None, hash_=None, crash=False, weights=
                 c["parts"] = [[[nm, "" if rng.random() < 0.6 else v] for nm, v in part] for part in c["parts"]]
     elif x < 0.35:
         run["skipnamecheck"] = True
+    elif x < 0.42 and not crash:
+        # one process is configured with the OTHER hash function; it can only get a handle while the stack is empty, and whatever
+        # it does afterwards the list must keep naming tables of one hash type that every correctly configured handle can open
+        # (every handle opens the still empty directory during set-up; a correctly configured handle commits first, which makes
+        # its hash function the stack's)
+        run["init"] = []
+        run["preopen"] = True
+        run["alien"] = {str(nh): True}
+        run["auto"] = {k: False for k in auto}
+        for h in progs:
+            progs[h] = [c for c in progs[h] if c["op"] not in ("open", "close", "reopen")]
+        progs["1"] = [tg.add()] + progs["1"]
+        run["sched"] = [1] * 40
     return run
 
 
